@@ -25,6 +25,17 @@ CLAIMED = {
             "epoch unchanged through the collector round trip; single writers; hooks prepared once and attached.", "§4 C20"),
 }
 
+CLAIMED.update({
+    "C07": ("value provenance of ledger writes + must-pass-through + ordering-domain walk of the collect threshold + forward message flow",
+            "Protocol fee value reaches both ledgers keyed by the ask pool on every success path; burn value paired with an attached "
+            "burn message; in collect a ledger entry is zeroed exactly in the amount regions in which its transfer is attached, "
+            "recipient = CONFIG.fee_collector_addr; all-time ledgers written only by the add-only helper.", "§4 C07"),
+    "C12": ("configuration-sliced CFG reachability (correlated enum branches) + forward message flow + refund provenance",
+            "In every (fee asset, flow asset, same?) configuration every path to FLOWS.save crosses a funding tie "
+            "(funds comparison or attached TransferFrom of the flow amount); every message built is attached; close_flow refunds "
+            "an amount depending on asset_history and claimed_amount to the flow creator and removes the flow.", "§4 C12"),
+})
+
 NOT_APPLICABLE = {
     "C03": "wholly numerical (Newton convergence vs an independent high-precision solution over magnitudes and decimals); no sound "
            "static argument in reach bounds those runtime quantities; the shared code sites' structural clauses are decided under C01/C07/C14",
